@@ -66,19 +66,23 @@ INVARIANT C06_NoLeak
 """
 
 
-def pair_model(ctx: Ctx, thorough, extra=(), atomic=True, second=()):
+def pair_model(ctx: Ctx, thorough, extra=(), atomic=True, second=(), discard=False):
     """second: what a second user thread on the requestor may call (the pair model then has two user threads there)."""
     import json
     known = [k for k in json.load(open(os.path.join(VERIF, "known_findings.json")))["findings"] if k["property"] == "C05" and k["status"] == "open"]
+    if discard:
+        known = []          # the proposed repair (proposed/README.md): no crash signature is tolerated
     ks = ", ".join([f'<<"{k["signature"]["role"]}", {k["signature"]["event"]}, {k["signature"]["state"]}>>' for k in known]
                    + [f'<<"{a}", {b}, {c}>>' for a, b, c in extra])
     q = lambda xs: ", ".join(f'"{x}"' for x in xs)  # noqa: E731
     with open(os.path.join(ctx.work, "MC_Pair.tla"), "w") as f:
-        f.write(PAIR_MODULE.format(rops=q(["release", "abort", "echo"]), aops=q(["abort", "release"]), known=ks, rops2=q(list(second))).replace("====\n", "MCNonAtomic == FALSE\n====\n"))
+        f.write(PAIR_MODULE.format(rops=q(["release", "abort", "echo"]), aops=q(["abort", "release"]), known=ks, rops2=q(list(second))).replace("====\n", "MCNonAtomic == FALSE\nMCDiscard == TRUE\n====\n"))
     with open(os.path.join(ctx.work, "MC_Pair.cfg"), "w") as f:
         cfg = PAIR_CFG.format(maxtick=1)
         if second:
             cfg = cfg.replace("          HandlerAbort <- MCHandlerAbort\n", "          HandlerAbort <- MCHandlerAbort\n          UserOps2 <- MCUserOps2\n")
+        if discard:
+            cfg = cfg.replace("          HandlerAbort <- MCHandlerAbort\n", "          HandlerAbort <- MCHandlerAbort\n          DiscardUndefinedLocal <- MCDiscard\n")
         if not atomic:
             # abort() and the reactor's release branch in two steps each (no lock in the code): only the one-outcome invariants
             cfg = cfg.replace("          HandlerAbort <- MCHandlerAbort\n", "          HandlerAbort <- MCHandlerAbort\n          AtomicOutcome <- MCNonAtomic\n")
